@@ -13,7 +13,9 @@ RULE = (
     "up to length 4 (quick) / 5 (thorough) after a valid greeting; structure-aware mutations of valid streams "
     "(every command truncated at every offset, every length field replaced by {0,len-1,len+1,255,2^16,2^31,"
     "2^32-1,2^40,2^63,2^64-1}), 20 000 MORE frames in one read, hostile bytes before/inside the greeting, seeded "
-    "random bytes. Non-trivial: the implementation returned something other than 'none' (an item or an error). "
+    "random bytes; socket level (world engine, every poll on a 2 MiB-stack thread): for each of the 8 socket types that read, 6 000 / 25 000 "
+    "items the recv loop ignores (READY commands; bogus subscriptions for PUB/XPUB; non-matching topics for SUB) in ONE "
+    "read followed by a valid message, then a healthy peer's message — no crash, both delivered. Non-trivial: the implementation returned something other than 'none' (an item or an error). "
     "Spec oracle (needs no model): no PANIC, no abort/stack overflow of the child process, heap growth within "
     "64 x bytes-received + 32 KiB (peak growth and largest single request, measured around the decode calls)."
 )
@@ -103,6 +105,10 @@ def cases(tier, rng):
         for junk in [b"\x00" * 64, b"\xff" * 64, bytes(range(64)), b"\xff" + b"\x00" * 8 + b"\x7f" + b"\xff" * 54]:
             out.append(hostile(f"greeting#{n}", [G[:pre] + junk[pre:]], ["greeting-stage"], greet=False))
             n += 1
+    # socket level: a flood of items the socket's recv loop IGNORES or rejects, all in one read, through real sockets
+    # polled on a 2 MiB-stack thread (a tokio worker's stack): the socket must consume them iteratively, deliver
+    # the message that follows, and a healthy peer must keep working
+    out += flood_cases(6000 if tier == "quick" else 25000)
     # seeded random bytes
     kr = 2000 if tier == "quick" else 40000
     for _ in range(kr):
@@ -113,7 +119,67 @@ def cases(tier, rng):
     return out
 
 
+FLOOD_PEER = {"PULL": "PUSH", "SUB": "PUB", "DEALER": "ROUTER", "ROUTER": "DEALER", "REP": "REQ", "XPUB": "SUB",
+              "REQ": "REP", "PUB": "SUB"}
+
+
+def flood_cases(k):
+    from vlib import worldgen as wg
+    out = []
+    cmd = zmtp.frame(b"\x05READY", command=True)          # a well-formed READY with no properties
+    n = 0
+    for t, pt in FLOOD_PEER.items():
+        floods = {"commands": cmd * k}
+        if t in ("PUB", "XPUB"):
+            floods["bogus-subscriptions"] = zmtp.message([b"\x02zz"]) * k
+        if t == "SUB":
+            floods["unsubscribed-topics"] = zmtp.message([b"nomatch"]) * k
+        for fname, flood in floods.items():
+            sc = wg.Script()
+            sc.sock(1, t)
+            sc.attach(1, 1, pt, b"flood")
+            sc.attach(1, 2, pt, b"good")
+            if t == "SUB":
+                f = sc.fut()
+                sc.add(f"sub {f} 1 {wg.hx(b'ok')}", f"poll {f}", f"drop {f}", "wire 1", "wire 2")
+            good = {"REP": [b"", b"ok"], "REQ": [b"", b"ok"], "XPUB": [b"\x01ok"], "PUB": [b"\x01ok"]}.get(t, [b"ok"])
+            if t == "REQ":
+                f = sc.fut()
+                sc.add(f"send {f} 1 {wg.hx(b'q')}", f"poll {f}", f"drop {f}", "wire 1", "wire 2")
+            sc.add(f"reveal 1 {wg.hx(flood + zmtp.message(good))}")
+            if t == "PUB":
+                sc.add("drain")
+                f = sc.fut()
+                sc.add(f"send {f} 1 {wg.hx(b'ok-topic')}", f"poll {f}", f"drop {f}", "wire 1", "wire 2")
+            else:
+                f = sc.fut()
+                sc.add(f"recv {f} 1", f"poll {f}", f"drop {f}")
+            # the healthy peer
+            if t == "PUB":
+                sc.reveal_msg(2, [b"\x01ok"])
+                sc.add("drain")
+                f = sc.fut()
+                sc.add(f"send {f} 1 {wg.hx(b'ok-again')}", f"poll {f}", f"drop {f}", "wire 2")
+            elif t != "REQ":
+                sc.reveal_msg(2, good)
+                f = sc.fut()
+                sc.add(f"recv {f} 1", f"poll {f}", f"drop {f}")
+            out.append(Case(f"flood-{t}-{fname}#{n}", "world", list(sc.ops), ["socket-flood"]))
+            n += 1
+    return out
+
+
 def oracle(case, impl_lines):
+    if case.engine == "world":
+        for op, l in zip(["case"] + case.ops, impl_lines):
+            if "PANIC" in l:
+                return f"the library panicked on `{op[:80]}`"
+            if l.startswith("ABORT") or l.startswith("TIMEOUT"):
+                return f"the process died ({l}) on `{op[:80]}` — abort / stack overflow / hang"
+        polls = [l for op, l in zip(case.ops, impl_lines[1:]) if op.startswith("poll")]
+        if not any(l.startswith("ready ok M[") or l == "ready ok" for l in polls[-2:]):
+            return f"after the flood the socket no longer delivers: {polls[-2:]}"
+        return None
     for op, l in zip(["case"] + case.ops, impl_lines):
         if "PANIC" in l:
             return f"the library panicked on `{op[:80]}`"
@@ -125,6 +191,8 @@ def oracle(case, impl_lines):
 
 
 def nontrivial(case, impl_lines):
+    if case.engine == "world":
+        return any(l.startswith("ready ok") for l in impl_lines)
     return any(l.startswith("items ") and not l.startswith("items none") for l in impl_lines[2:])
 
 
